@@ -13,7 +13,8 @@ package safrole
 //            "kappa":[key..],"gammak":[..],"lambda":[..],"iota":[..]},
 //    "blocks":[{"slot","ent","ce","rk","tab","adv","off":[key..],"n":[{"id","att","sig"}..]}..]}
 //   adv = 1: an accepted block's posterior becomes the next prior; adv = 0: the blocks are
-//   alternatives applied to the same prior state.
+//   alternatives applied to the same prior state.  "live":1 on a history (adv = 1 blocks, no offenders):
+//   the prior state is loaded once and then lives in the singleton across the blocks (see vfRunHist).
 //   {"ev":"Z","P":{..},"U":n,"s":[[id,att]..]}          OutsideInSequencer
 //   {"ev":"F","P":{..},"r":[32 bytes],"kappa":[key..]}   FallbackKeySequence
 // Identifiers are ranks (1..U) in the bytewise order of a fixed universe of 32-byte values;
@@ -307,6 +308,11 @@ func vfRunHist(out *vfd.Out, c map[string]any) {
 		"ga": u.pairs(st.ga), "gs": vfGsOut(u, st.gs), "eta": vfEtaOut(st.eta),
 		"kappa": vfKeyIDs(st.kappa), "gammak": vfKeyIDs(st.gammak), "lambda": vfKeyIDs(st.lambda), "iota": vfKeyIDs(st.iota_)})
 
+	// live = 1: the history runs on ONE chain-state instance; an accepted block's posterior is committed
+	// as the next prior in memory (no reload, no copy) and a refused block is simply followed by the
+	// next one, so that anything a block leaves behind in the prior state shows in the later blocks
+	live := vfd.I(c["live"]) == 1
+	loaded := false
 	blocks, _ := c["blocks"].([]any)
 	for _, bx := range blocks {
 		b := bx.(map[string]any)
@@ -361,7 +367,7 @@ func vfRunHist(out *vfd.Out, c map[string]any) {
 		var ent [32]byte
 		ent = sha256.Sum256([]byte{'e', 'n', 't', byte(vfd.I(b["ent"])), byte(vfd.I(b["ent"]) >> 8)})
 
-		rec := map[string]any{"ev": "Block", "slot": vfd.I(b["slot"]), "ent": vfd.I(b["ent"]), "ce": ce, "rk": vfd.S(b["rk"]),
+		rec := map[string]any{"ev": "Block", "live": vfd.I(c["live"]), "slot": vfd.I(b["slot"]), "ent": vfd.I(b["ent"]), "ce": ce, "rk": vfd.S(b["rk"]),
 			"off": offIDs, "n": nEcho, "tab": [][][][]int{}, "adv": vfd.I(b["adv"])}
 		if vfd.I(b["tab"]) == 1 {
 			rec["tab"] = [][][][]int{vfOracle(st.eta[ce&3], types.EpochLength)}
@@ -372,20 +378,28 @@ func vfRunHist(out *vfd.Out, c map[string]any) {
 		var cs *blockchain.ChainState
 		panicked, msg := vfd.Guard(func() {
 			vfEvictVerifierCache()
-			blockchain.ResetInstance()
-			cs = blockchain.GetInstance()
-			cs.GetPriorStates().SetTau(types.TimeSlot(st.tau))
+			if !live || !loaded {
+				// per-block mode: every block starts from a prior state rebuilt from the driver's copy;
+				// live mode: only the first block of the history does, later blocks find in the singleton
+				// whatever the previous blocks (accepted or refused) left there
+				blockchain.ResetInstance()
+				cs = blockchain.GetInstance()
+				cs.GetPriorStates().SetTau(types.TimeSlot(st.tau))
+				cs.GetPriorStates().SetEta(st.eta)
+				cs.GetPriorStates().SetLambda(vfCloneVals(st.lambda))
+				cs.GetPriorStates().SetKappa(vfCloneVals(st.kappa))
+				cs.GetPriorStates().SetGammaK(vfCloneVals(st.gammak))
+				cs.GetPriorStates().SetIota(vfCloneVals(st.iota_))
+				cs.GetPriorStates().SetGammaA(append(types.TicketsAccumulator{}, st.ga...))
+				cs.GetPriorStates().SetGammaS(st.gs)
+				loaded = true
+			} else {
+				cs = blockchain.GetInstance()
+			}
 			cs.GetProcessingBlockPointer().SetSlot(types.TimeSlot(slot))
 			cs.GetPosteriorStates().SetTau(types.TimeSlot(slot))
-			cs.GetPriorStates().SetEta(st.eta)
 			h := blake2b.Sum256(append(append([]byte{}, st.eta[0][:]...), ent[:]...))
 			cs.GetPosteriorStates().SetEta0(types.Entropy(h))
-			cs.GetPriorStates().SetLambda(vfCloneVals(st.lambda))
-			cs.GetPriorStates().SetKappa(vfCloneVals(st.kappa))
-			cs.GetPriorStates().SetGammaK(vfCloneVals(st.gammak))
-			cs.GetPriorStates().SetIota(vfCloneVals(st.iota_))
-			cs.GetPriorStates().SetGammaA(append(types.TicketsAccumulator{}, st.ga...))
-			cs.GetPriorStates().SetGammaS(st.gs)
 			cs.GetPosteriorStates().SetPsiO(psiO)
 			var hdr types.Header
 			hdr.Slot = types.TimeSlot(slot)
@@ -405,6 +419,10 @@ func vfRunHist(out *vfd.Out, c map[string]any) {
 			rec["tm"] = map[string]any{"has": 0, "t": [][]int{}}
 			rec["em"] = map[string]any{"has": 0, "e0": []int{}, "e1": []int{}, "v": []int{}}
 			out.Emit(rec)
+			if live {
+				// a refused block: the working posterior is discarded, the in-memory prior stays as the code left it
+				cs.GetPosteriorStates().SetState(blockchain.NewPosteriorStates().GetState())
+			}
 			continue
 		}
 		post := cs.GetPosteriorStates()
@@ -439,6 +457,21 @@ func vfRunHist(out *vfd.Out, c map[string]any) {
 		out.Emit(rec)
 		if vfd.I(b["adv"]) == 1 {
 			st = nst // posterior becomes prior (what ChainState.StateCommit does for the whole state)
+		}
+		if live {
+			// commit in memory the way ChainState.StateCommit does: the prior takes over the posterior's
+			// values as they are (slices are shared, not copied), then the posterior starts afresh.
+			// iota is not touched by Safrole (accumulation owns it) and stays.
+			prior := cs.GetPriorStates()
+			prior.SetTau(post.GetTau())
+			prior.SetEta(post.GetEta())
+			prior.SetGammaA(post.GetGammaA())
+			prior.SetGammaS(post.GetGammaS())
+			prior.SetGammaK(post.GetGammaK())
+			prior.SetGammaZ(post.GetGammaZ())
+			prior.SetKappa(post.GetKappa())
+			prior.SetLambda(post.GetLambda())
+			cs.GetPosteriorStates().SetState(blockchain.NewPosteriorStates().GetState())
 		}
 	}
 }
